@@ -50,10 +50,12 @@ ANCHORS = [
     "txtorcon.router:hashFromHexId",
 ]
 FLOORS = {
-    "quick": {"evaluations": 500, "documents_compared": 1000, "relays_compared": 15000,
-              "lookups_compared": 50000, "reused_relays_seen": 4000, "codec_roundtrips": 2000,
-              "reach:txtorcon.torstate:TorState._create_router": 15000,
-              "reach:txtorcon.torstate:TorState._update_network_status": 500},
+    "quick": {"evaluations": 500, "documents_compared": 800, "relays_compared": 9000,
+              "lookups_compared": 30000, "reused_relays_seen": 4000, "object_identity_checks": 4000,
+              "collections_compared": 1600, "codec_roundtrips": 2000,
+              "reach:txtorcon.torstate:TorState._create_router": 9000,
+              "reach:txtorcon.torstate:TorState._update_network_status": 400,
+              "reach:txtorcon.torstate:TorState.router_from_id": 30000},
     "thorough": {"evaluations": 10000, "documents_compared": 25000, "relays_compared": 400000,
                  "lookups_compared": 1000000, "reused_relays_seen": 100000, "codec_roundtrips": 50000,
                  "reach:txtorcon.torstate:TorState._create_router": 400000},
@@ -281,6 +283,27 @@ def judge(st, docs, k, prev, rec, V, flags):
         k, min(len(wids) // 10 * 10, 40), min(len(want["duplicate"]), 3), min(len(want["guards"]), 3),
         min(len(want["authorities"]), 3)))
     flags["compared"] = True
+    for r in docs[k]:
+        rec.seen("entry_shapes", "r" + " a" * len(r.get("a", ())) + " s"
+                 + (" w" + "+kw" * len(r.get("wx", ())) if r.get("bw") is not None else "")
+                 + (" p" if r.get("p") is not None else ""))
+    if k:
+        before = {r["id"]: r for r in docs[k - 1]}
+        for r in docs[k]:
+            o = before.get(r["id"])
+            if o is None:
+                rec.seen("relay_changes", "joined")
+                continue
+            for what, a, b in (("nick", o["nick"], r["nick"]), ("ipv4", o["ip"], r["ip"]),
+                               ("a-lines", o["a"], r["a"]), ("w-line", o["bw"], r["bw"]),
+                               ("ports", (o["orport"], o["dirport"]), (r["orport"], r["dirport"]))):
+                if a != b:
+                    rec.seen("relay_changes", what + (":dropped" if not b and b != 0 else (":added" if not a and a != 0 else ":changed")))
+            for f in set(o["flags"]) ^ set(r["flags"]):
+                if f in ("Guard", "Authority"):
+                    rec.seen("relay_changes", f + (":gained" if f in r["flags"] else ":lost"))
+        if set(before) - {r["id"] for r in docs[k]}:
+            rec.seen("relay_changes", "left")
     # -- the relay set, through every index ----------------------------------
     indexes = {
         "all_routers": [getattr(r, "id_hex", None) for r in st.all_routers],
@@ -478,6 +501,6 @@ def plan(tier, seed):
         specs.append({"mode": "codec", "n": 20000})
     else:
         for _ in range(47):
-            specs.append({"mode": "docs", "n": 1500, "timeout_s": 3000})
+            specs.append({"mode": "docs", "n": 4000, "timeout_s": 3000})
         specs.append({"mode": "codec", "n": 400000, "timeout_s": 3000})
     return specs
